@@ -99,6 +99,13 @@ def _membership(w, e, s, l, r, positive, outs):
         outs.append((s1, "val", C(True)))
         outs.append((s1.copy(), "val", C(False)))
         return
+    if is_lit(r, "dict") and is_const(l) and all(is_const(k) for k, _v in r[2]):
+        # a dict display with constant keys that nothing has stored into since: decided by its keys
+        from .walker import _deep_events, _root_term
+
+        if not any(ev[0] in ("store", "del", "mutcall") and _root_term(ev[2]) == r for ev in _deep_events(s.events)):
+            outs.append((s, "val", C((l in [k for k, _v in r[2]]) == positive)))
+            return
     rlit = r if is_lit(r) else w.const_literal(r, s)
     if rlit is not None and not is_lit(rlit):
         norm = _as_set_literal(w, rlit, s)  # frozenset({...}) bound to a module constant
